@@ -891,7 +891,7 @@ fn ensure_datum_input(prog: &mut GProg) {
 fn gen_datum(g: &mut Gen, point: &str, prog: &mut GProg) -> Option<DataE> {
     let alts = [
         "none", "int", "int-n", "bytes", "bool", "unit", "record", "record-out-of-order", "variant", "variant-unit-case", "list", "map", "spread", "spread-all", "input-datum",
-        "input-field", "input-list-item", "concat", "nested-list",
+        "input-field", "input-list-item", "concat", "nested-list", "input-list-item-by-name",
     ];
     let q = || DataE::Int(IntE::Param("q".into()));
     Some(match alts[g.pick(point, &alts)] {
@@ -949,6 +949,15 @@ fn gen_datum(g: &mut Gen, point: &str, prog: &mut GProg) -> Option<DataE> {
                 DataE::Int(IntE::InputListItem("st".into(), 2, "limits".into(), Box::new(IntE::Lit(0)))),
                 DataE::Int(IntE::InputListItem("st".into(), 2, "limits".into(), Box::new(IntE::Lit(1)))),
             ])
+        }
+        // the index is a plain name (a local here, the parameter q cannot be an index): `st.limits[ix]` has the very
+        // shape of a property access `a.b` in the AST
+        "input-list-item-by-name" => {
+            ensure_datum_input(prog);
+            if !prog.locals.iter().any(|(n, _)| n == "ix") {
+                prog.locals.push(("ix".into(), LocalE::Int(IntE::Lit(1))));
+            }
+            DataE::List(vec![DataE::Int(IntE::InputListItem("st".into(), 2, "limits".into(), Box::new(IntE::Local("ix".into()))))])
         }
         // strings with strings, bytes with bytes (the two kinds are distinct values of the IR)
         "concat" => DataE::List(vec![
